@@ -44,6 +44,14 @@ class PyIte:
         self.c, self.a, self.b = c, a, b
 
 
+class PyCat:
+    """concatenation of literals / conditionals whose sequence type is fixed later (by coercion)"""
+    __slots__ = ("a", "b")
+
+    def __init__(self, a, b):
+        self.a, self.b = a, b
+
+
 class PyFn:
     """python-level callable known to the executor (spec function, lambda, builtin, contract)"""
 
@@ -64,7 +72,7 @@ NONE_V = V(NONE, z3.BoolVal(True))
 
 
 def lift(c):
-    if isinstance(c, (V, PyTup, PyFn, PyConstObj, PyDict, PyIte)):
+    if isinstance(c, (V, PyTup, PyFn, PyConstObj, PyDict, PyIte, PyCat)):
         return c
     if c is None:
         return NONE_V
@@ -98,6 +106,8 @@ def seq_unit(ty, term):
 def coerce(val, ty):
     """convert a value to type ty (building constructor terms); raises Unsupported if impossible"""
     val = lift(val)
+    if isinstance(val, PyCat):
+        return concat(coerce(val.a, ty), coerce(val.b, ty))
     if isinstance(val, PyIte):
         a, b = coerce(val.a, ty), coerce(val.b, ty)
         if ty is NONE:
@@ -123,6 +133,8 @@ def coerce(val, ty):
             return V(ty, val.t)
         raise Unsupported("cannot coerce %s to %s" % (val.ty, ty))
     if isinstance(val, PyDict):
+        if isinstance(ty, DictT) and not val.items:
+            return V(ty, ty.nil)
         if isinstance(ty, RecT):
             kw = {}
             for k, v in val.items.items():
@@ -221,12 +233,12 @@ def unify(a, b):
         if isinstance(b.ty, UnionT) and b.ty.tag_of_type(a.ty) is not None:
             return coerce(a, b.ty), b
         return None
-    if isinstance(a, V) and isinstance(b, (PyTup, PyDict, PyIte)):
+    if isinstance(a, V) and isinstance(b, (PyTup, PyDict, PyIte, PyCat)):
         try:
             return a, coerce(b, a.ty)
         except Unsupported:
             return None
-    if isinstance(b, V) and isinstance(a, (PyTup, PyDict, PyIte)):
+    if isinstance(b, V) and isinstance(a, (PyTup, PyDict, PyIte, PyCat)):
         r = unify(b, a)
         return (r[1], r[0]) if r else None
     return None
@@ -263,7 +275,7 @@ def ite(c, a, b):
         return PyTup([ite(c, x, y) for x, y in zip(a.items, b.items)], a.is_list)
     u = unify(a, b)
     if u is None:
-        if isinstance(a, (PyTup, PyDict, PyIte)) and isinstance(b, (PyTup, PyDict, PyIte)):
+        if isinstance(a, (PyTup, PyDict, PyIte, PyCat)) and isinstance(b, (PyTup, PyDict, PyIte, PyCat)):
             return PyIte(c, a, b)
         raise Unsupported("conditional merge of %r and %r" % (a, b))
     if u[0].ty is NONE:
@@ -390,12 +402,12 @@ def concat(a, b):
     a, b = lift(a), lift(b)
     if isinstance(a, PyTup) and isinstance(b, PyTup):
         return PyTup(a.items + b.items, a.is_list)
-    if isinstance(a, (PyTup, PyIte)) and isinstance(b, V):
+    if isinstance(a, (PyTup, PyIte, PyCat)) and isinstance(b, V):
         a = coerce(a, b.ty)
-    if isinstance(b, (PyTup, PyIte)) and isinstance(a, V):
+    if isinstance(b, (PyTup, PyIte, PyCat)) and isinstance(a, V):
         b = coerce(b, a.ty)
     if not (isinstance(a, V) and isinstance(b, V)):
-        raise Unsupported("concatenation of two untyped conditionals")
+        return PyCat(a, b)
     if a.ty is not b.ty:
         raise Unsupported("concat %s + %s" % (a.ty, b.ty))
     if a.ty is STR or isinstance(a.ty, SeqT):
@@ -442,18 +454,19 @@ def head_tail(v):
 
 
 class DictItems:
-    """view produced by d.items(): iteration yields (key, value) pairs"""
-    __slots__ = ("d",)
+    """view produced by d.items() / d.values(): iteration yields (key, value) pairs / values"""
+    __slots__ = ("d", "mode")
 
-    def __init__(self, d):
+    def __init__(self, d, mode="items"):
         self.d = d
+        self.mode = mode
 
 
 def iter_head_tail(v):
-    """like head_tail but understands DictItems (pairs) vs plain dict iteration (keys)"""
+    """like head_tail but understands dict views (pairs / values) vs plain dict iteration (keys)"""
     if isinstance(v, DictItems):
         ne, hd, tl = head_tail(v.d)
-        return ne, hd, DictItems(tl)
+        return ne, (hd if v.mode == "items" else hd.items[1]), DictItems(tl, v.mode)
     v = lift(v)
     if isinstance(v, V) and isinstance(v.ty, DictT):
         ne, hd, tl = head_tail(v)
